@@ -99,6 +99,7 @@ impl Cx {
                 match self.lookup(&name).cloned() {
                     Some(Bnd::Val { term, ty }) => Ok((term, ty)),
                     Some(Bnd::Slot { idx }) => self.read_place(&Pl::Slot(idx), pres),
+                    Some(Bnd::Fun { term }) => Ok((term, Ty::Unknown)),
                     None => Err(format!("unknown name `{}`", name)),
                 }
             }
@@ -145,6 +146,8 @@ impl Cx {
                 };
                 let (bt, bty) = self.expr(&f.base, pres)?;
                 match (&bty, fname.as_str()) {
+                    (Ty::TravSt, "root") => Ok((format!("fst {}", paren(&bt)), Ty::NodeId)),
+                    (Ty::TravSt, "next") => Ok((format!("snd {}", paren(&bt)), Ty::opt(Ty::Edge))),
                     (Ty::Range, "first") => Ok((format!("fst {}", paren(&bt)), Ty::NodeId)),
                     (Ty::Range, "last") => Ok((format!("snd {}", paren(&bt)), Ty::NodeId)),
                     (Ty::Node, _) => self.node_field_read(&bt, &fname),
